@@ -85,6 +85,8 @@ def _tool_loop(sim, limit, max_batches=None):
 
 def scenario(shape):
     eng = engine()
+    # the third script hash sits in cursor prefix 0002, or (marked shapes) in the very last prefix ffff
+    HX[2] = (b'\xff\xff' if shape.get('last_prefix') else b'\x00\x02') + b'\x33' * 9
     sim = chain.Sim(activation=0)
     try:
         sim.open()
@@ -222,7 +224,8 @@ def shapes(tier):
             {'row': 3, 'flushes': [(4, 1, 0), (1, 1, 3), (1, 0, 1)]},              # a row longer than a compacted row
             {'row': 2, 'flushes': [(2, 0, 0), (0, 2, 0), (0, 0, 2)]},              # rows already of compacted size
         ]
-    out.append({'row': 2, 'flushes': [(2, 1, 0), (2, 0, 1), (1, 1, 1)], 'mode': 'twice', 'sym_limit': tier != 'quick'})
+    out.append({'row': 2, 'flushes': [(2, 1, 0), (2, 0, 1), (1, 1, 1)], 'mode': 'twice', 'sym_limit': tier != 'quick',
+                'last_prefix': True})
     if tier == 'thorough':
         out.append({'row': 2, 'flushes': [(2, 1, 1), (2, 1, 0), (2, 0, 1), (0, 1, 1)], 'mode': 'twice'})
         out.append({'row': 3, 'flushes': [(3, 0, 1), (3, 2, 0), (2, 0, 2)], 'mode': 'twice'})
@@ -256,7 +259,7 @@ KERNELS = [
                     '_flush_compaction', '_cancel_compaction', 'open_db', 'read_state', 'write_state', 'clear_excess',
                     'flush', 'backup', 'get_txnums', 'electrumx/server/db.py:DB.open_for_compacting',
                     'set_flush_count', 'write_utxo_state'],
-           bounds='3 script hashes in 2 cursor prefixes (concrete keys), <= 4 flushes, <= 4 entries per row, '
+           bounds='3 script hashes in 2 cursor prefixes (concrete keys; 0000 and 0002, in one shape 0000 and the last prefix ffff), <= 4 flushes, <= 4 entries per row, '
                   'max_hist_row_entries 2 or 3; symbolic: every entry (40-bit, increasing per script hash), the batch '
                   'limit (any integer >= 1), the backup threshold (40-bit); stop after 1 or 2 batches then resume or '
                   'abandon (normal start), or complete; one mode: killed between batches, start with no block pending, block, second '
